@@ -1027,12 +1027,16 @@ def main(tier, seed):
         [tuple(c) for c in itertools.combinations(names, 2)]
     call_sets += [('stat', 'stat2', 'realpath'), ('open', 'listdir', 'stat'), ('missing', 'stat', 'readlink'),
                   ('stat', 'stat', 'stat2')]
+    if tier == 'thorough':      # every set of three different calls as well, one more deviation for the pairs
+        call_sets += [tuple(c) for c in itertools.combinations(names, 3) if tuple(c) not in call_sets]
     a = client_run(('stat', 'stat2', 'realpath'), core.Chooser([1, 0]), seed=seed)
     b = client_run(('stat', 'stat2', 'realpath'), core.Chooser([1, 0]), seed=seed)
     if a != b:
         print('HARNESS-NONDETERMINISM')
         return 2
-    jobs = [(cs, bound, False) for cs in call_sets] + [(cs, bound, True) for cs in call_sets if len(cs) == 3]
+    deep = 2 if tier == 'thorough' else 0       # thorough: pairs to 6 deviations, triples to 5
+    jobs = [(cs, bound + deep if len(cs) == 2 else bound + deep // 2, False) for cs in call_sets] + \
+        [(cs, bound, True) for cs in call_sets if len(cs) == 3]
     # a server that sends status codes alone (no message, no language tag): EOF, NO_SUCH_FILE, ... mean the same
     jobs += [(cs, 1, False, True) for cs in call_sets if 'missing' in cs or 'listdir' in cs]
     acc = core.pmap(client_worker, core.rotate(jobs, seed))
@@ -1060,7 +1064,7 @@ def main(tier, seed):
     shutil.rmtree(SCRATCH, ignore_errors=True)
     rule = ('(a) %d sets of 2-3 concurrent SFTPClient calls over the model server; at every step any outstanding '
             'request may be answered correctly, or (once) with each wrong reply type, an unknown id, a duplicate id '
-            'or another caller\'s id, or a caller is cancelled and its reply arrives late; DFS bound %d; (b) versions '
+            'or another caller\'s id, or a caller is cancelled and its reply arrives late; DFS deviation bound %s; (b) versions '
             '3-6 x every request type/extension x well-formed, every truncation, trailing byte, then a probe '
             'request; error mapping for 16 errno values and 19 SFTPError classes per version; an application that '
             'refuses or fails each of 26 methods in turn (every reply parses as its own type, the refused request '
@@ -1070,7 +1074,7 @@ def main(tier, seed):
             'for every subset of 5 (v3), 9 (v4), 10 (v5), 16 (v6) field groups incl. independent layout encoders; '
             'every file type x every sequence of <= 3 versions encoded from one object (no mutation, no history); '
             'every subset of present times x every subset of them carrying nanoseconds'
-            % (len(call_sets), bound))
+            % (len(call_sets), '%d for pairs, %d for triples (the space stops growing beyond that: each fault kind is offered once)' % (bound + deep, bound + deep // 2) if deep else str(bound)))
     return core.finish(PROP, tier, seed, 'model_checking', acc, t0, rule,
                        {'client_execs': n_a, 'server_execs': n_b, 'codec_cases': acc.evaluations - n_a - n_b},
                        assumptions=['the errno table is written from the SFTP status code definitions and the '
